@@ -9,6 +9,7 @@ import (
 	"strconv"
 	"strings"
 	"sync"
+	"sync/atomic"
 	"syscall"
 	"time"
 
@@ -469,8 +470,13 @@ func runC18Process(rc *RunCtx) {
 	lateCancel := cancelAt < 0 && ending == 0 && !so.finalNL && len(so.lines) > 0 && so.lines[len(so.lines)-1] != "" && lateDraw
 	if lateCancel {
 		last := so.nonEmpty[len(so.nonEmpty)-1]
+		expected := len(so.nonEmpty) // lines may repeat: it is the last one by count, too
+		if !useOutput {
+			expected++ // the start message
+		}
+		var seen atomic.Int32
 		rec.onOut = func(m string) {
-			if m == last {
+			if n := int(seen.Add(1)); m == last && n == expected {
 				cancel()
 			}
 		}
